@@ -66,6 +66,7 @@ type spec struct {
 	h2style          bool // undeclared request length without chunked transfer-encoding (HTTP/2, direct calls)
 	verbose          bool // buffer.Verbose(true) with a formatting logger
 	formCT           bool // the request declares Content-Type: application/x-www-form-urlencoded
+	upgradeHdr       bool // the request asks for a protocol switch (Connection: Upgrade, Upgrade: websocket)
 	copyMode         bool // the handler streams its body with io.Copy from a plain reader
 	abort            bool // the handler panics (http.ErrAbortHandler) after writing
 }
@@ -95,6 +96,7 @@ func genSpec(t *rapid.T) *spec {
 	s := &spec{}
 	s.method = rapid.SampledFrom([]string{"GET", "POST", "POST", "HEAD", "PUT", "PATCH"}).Draw(t, "method")
 	s.formCT = rapid.IntRange(0, 2).Draw(t, "formContentType") == 0
+	s.upgradeHdr = rapid.IntRange(0, 5).Draw(t, "upgradeHeaders") == 0
 	s.memReq = rapid.SampledFrom([]int64{1, 16, 512, 4096}).Draw(t, "memReq")
 	switch rapid.IntRange(0, 4).Draw(t, "maxReqKind") {
 	case 0:
@@ -152,7 +154,10 @@ func genSpec(t *rapid.T) *spec {
 	}
 	s.writes = append(s.writes, left)
 	s.status = rapid.SampledFrom([]int{200, 200, 204, 304, 500, 502}).Draw(t, "status")
-	switch rapid.IntRange(0, 3).Draw(t, "retryKind") {
+	switch rapid.IntRange(0, 4).Draw(t, "retryKind") {
+	case 4: // no bound of its own: the built-in ceiling of the retry loop ends it (11 attempts)
+		s.retry = "IsNetworkError()"
+		s.failFirst = rapid.SampledFrom([]int{0, 1, 9, 10, 10, 10}).Draw(t, "failMany")
 	case 1:
 		s.retry = "IsNetworkError() && Attempts() <= 2"
 		s.failFirst = rapid.IntRange(0, 2).Draw(t, "failFirst")
@@ -172,7 +177,7 @@ func genSpec(t *rapid.T) *spec {
 }
 
 func (s *spec) String() string {
-	return fmt.Sprintf("%s reqBody=%d chunked=%v memReq=%d maxReq=%d | memResp=%d maxResp=%d status=%d writes=%v retry=%q failFirst=%d explicitCL=%v copyMode=%v abort=%v h2style=%v verbose=%v formCT=%v", s.method, s.reqBody, s.chunked, s.memReq, s.maxReq, s.memResp, s.maxResp, s.status, s.writes, s.retry, s.failFirst, s.explicitCL, s.copyMode, s.abort, s.h2style, s.verbose, s.formCT)
+	return fmt.Sprintf("%s reqBody=%d chunked=%v memReq=%d maxReq=%d | memResp=%d maxResp=%d status=%d writes=%v retry=%q failFirst=%d explicitCL=%v copyMode=%v abort=%v h2style=%v verbose=%v formCT=%v upgradeHdr=%v", s.method, s.reqBody, s.chunked, s.memReq, s.maxReq, s.memResp, s.maxResp, s.status, s.writes, s.retry, s.failFirst, s.explicitCL, s.copyMode, s.abort, s.h2style, s.verbose, s.formCT, s.upgradeHdr)
 }
 
 // formatLogger formats its arguments like a real logger.
@@ -216,9 +221,16 @@ func TestC15_LimitsAndTempFiles(t *testing.T) {
 				w.Header().Set("Content-Length", fmt.Sprint(total))
 			}
 			w.Header().Set("X-Attempt", fmt.Sprint(invocations))
+			if s.retry == "IsNetworkError()" && invocations <= s.failFirst {
+				// a failing backend answers with a short error page, whatever the size of the real answer
+				w.Header().Del("Content-Length")
+				w.WriteHeader(st)
+				_, _ = w.Write([]byte("E"))
+				return
+			}
 			w.WriteHeader(st)
 			for _, n := range s.writes {
-				chunk := bytes.Repeat([]byte{byte('0' + invocations)}, n)
+				chunk := bytes.Repeat([]byte{byte('1' + (invocations-1)%9)}, n)
 				if s.copyMode {
 					_, _ = io.Copy(w, onlyReader{bytes.NewReader(chunk)}) // as http.ServeContent or a pipe would
 				} else {
@@ -271,6 +283,10 @@ func TestC15_LimitsAndTempFiles(t *testing.T) {
 		if s.formCT {
 			req.Header.Set("Content-Type", "application/x-www-form-urlencoded")
 		}
+		if s.upgradeHdr { // still a request with a body and a response: the limits apply
+			req.Header.Set("Connection", "keep-alive, Upgrade")
+			req.Header.Set("Upgrade", "websocket")
+		}
 		if s.chunked {
 			req.ContentLength = -1
 			req.TransferEncoding = []string{"chunked"}
@@ -310,6 +326,11 @@ func TestC15_LimitsAndTempFiles(t *testing.T) {
 			}
 		case "Attempts() < 3":
 			wantAttempts = 3
+		case "IsNetworkError()":
+			wantAttempts = s.failFirst + 1
+			if s.status == 502 {
+				wantAttempts = 11
+			}
 		}
 		switch {
 		case aborted:
@@ -346,7 +367,7 @@ func TestC15_LimitsAndTempFiles(t *testing.T) {
 				t.Fatalf("client got status %d, want %d (%s)", rec.Status(), wantStatus, s)
 			}
 			if s.method != "HEAD" && wantStatus != 204 && wantStatus != 304 {
-				want := bytes.Repeat([]byte{byte('0' + wantAttempts)}, total)
+				want := bytes.Repeat([]byte{byte('1' + (wantAttempts-1)%9)}, total)
 				if !bytes.Equal(rec.Body(), want) {
 					t.Fatalf("response of %d bytes (limit %d) not delivered intact: client got %d bytes (%s)", total, s.maxResp, len(rec.Body()), s)
 				}
